@@ -78,6 +78,8 @@ void op_iolog (char **tok, int ntok) ;
 
 /* routes.c (C14) */
 int cmd_routes (void) ;
+/* gsmx.c (C06, GSM) */
+void op_cseek (char **tok, int ntok) ;
 /* ledger.c (C16) */
 void op_ledger (char **tok, int ntok) ;
 /* meta.c (C12) */
